@@ -29,7 +29,7 @@ ASSUMPTIONS = [
     'smoothing window is a percentage of the layer count (0-100)',
     'for Guillot parameters outside the documented bounds but not in a listed rejected class nothing beyond agreement with the closed form is asserted',
 ]
-REQUIRED = {'slope-just-below-limit': 0.004, 'guillot-fault-set-after-first-use': 0.02, 'negative-node': 0.006, 'kind:npoint': 0.08, 'kind:guillot': 0.06, 'kind:array': 0.04, 'kind:file': 0.03, 'kind:rodgers': 0.04,
+REQUIRED = {'npoint:nodes-as-arrays': 0.04, 'slope-just-below-limit': 0.004, 'guillot-fault-set-after-first-use': 0.02, 'negative-node': 0.006, 'kind:npoint': 0.08, 'kind:guillot': 0.06, 'kind:array': 0.04, 'kind:file': 0.03, 'kind:rodgers': 0.04,
             'kind:isothermal': 0.02, 'rejected-class': 0.04}
 # coverage-guided extra (thorough tier): pure-Python taurex modules on this property's path, instrumented by atheris
 FUZZ = {'include': ['taurex.data.profiles.temperature'], 'runs': 40000, 'workers': 4}
@@ -67,6 +67,7 @@ def _case(draw, kind=None):
         c['smooth'] = draw(st.sampled_from([10, 100, 0, 1, 5, 20, 33, 50, 100, 7.5, 3, 99]))
         c['fault'] = draw(st.sampled_from([None, 'nearly-equal', None, 'inverted', 'slope', 'negative-node', 'equal-controls', 'nearly-equal', 'negative-node', 'slope-below-limit', 'slope-below-limit']))
         c['late_fault'] = draw(st.booleans())
+        c['pts_form'] = draw(st.sampled_from(['list', 'array', 'list', 'array']))
         c['limit'] = draw(st.floats(10.0, 5000.0))
         c['inv_at'] = draw(st.floats(0.0, 0.999))
         c['inv_equal'] = draw(st.booleans())
@@ -214,7 +215,12 @@ def check(case):
                 late = (j, ppts[j])
                 ppts = good_ppts
                 out.cls('fault-set-after-first-use')
-            tp = cut(out, 'construct', NPoint, T_surface=Ts, T_top=Tt, temperature_points=Tpts, pressure_points=ppts,
+            Tpts_given, ppts_given = Tpts, ppts
+            if c.get('pts_form') == 'array' and len(Tpts) >= 1:
+                # the interior nodes handed over as numpy arrays instead of lists: same numbers
+                out.cls('npoint:nodes-as-arrays')
+                Tpts_given, ppts_given = np.array(Tpts, dtype=float), np.array(ppts, dtype=float)
+            tp = cut(out, 'construct', NPoint, T_surface=Ts, T_top=Tt, temperature_points=Tpts_given, pressure_points=ppts_given,
                      smoothing_window=c['smooth'], limit_slope=limit, **kw)
             if late is not None:
                 tp.initialize_profile(planet, nl, P.copy())
@@ -367,6 +373,23 @@ def check(case):
         out.applies('finite-positive')
         if np.any(good & ~(np.isfinite(T) & (T > 0))):
             out.fail('finite-positive@guillot', 'non-finite or non-positive where the closed form is a positive number')
+        # ---- history: the same profile object initialised again on another pressure grid of the same layer count and a
+        # planet of other gravity (a retrieval moving the pressure range / the planet): the closed form on the NEW inputs
+        try:
+            shift = 0.7 + 1.1 * (c['lk_v1'] - math.floor(c['lk_v1']))
+            P2 = P * 10.0 ** (shift if c['lk_v2'] - math.floor(c['lk_v2']) > 0.5 else -shift)
+            planet2 = Planet(planet_mass=c['mass'] * 2.5, planet_radius=c['radius'] * 0.8)
+            cut(out, 'initialize_profile', tp.initialize_profile, planet2, nl, P2.copy())
+            with np.errstate(all='ignore'):
+                T2 = cut(out, 'profile@guillot,regridded', lambda: np.asarray(tp.profile, dtype=float), expect=(InvalidModelException,))
+            g2 = ref.G_NEWTON * c['mass'] * 2.5 * MJUP / (c['radius'] * 0.8 * RJUP) ** 2
+            want2 = guillot_reference(c, P2, g2)
+            good2 = np.isfinite(want2) & (want2 > 0)
+            out.applies('guillot-closed-form')
+            if T2.shape == want2.shape and np.any(good2) and not close(T2[good2], want2[good2], rtol=1e-8):
+                out.fail('guillot-closed-form@regridded', 'after re-initialising on another grid and planet: max rel %.2e' % maxrel(T2[good2], want2[good2]))
+        except (CutError, InvalidModelException):
+            pass
         out.nontrivial = True
         return out
     out.applies('finite-positive')
